@@ -19,6 +19,7 @@ RULE = (
     "exceptions of the same class with the original message; raise_first_exception raises the first failing slot's exception; every distinct memoizable element's body ran at most once "
     "(zero times if memoized beforehand); the final store (set of (function, arg hash), result types, stored values / exception records) equals the twin's. "
     "Non-trivial = batch with a duplicate or a failure and a partly memoized subset; distinct by (element kinds sequence, subset, mode)."
+    " Race family (round 5): call_batch([memoized, new]) in one thread while another thread forgets the memoized element, every one-preemption schedule (every 3rd yield point in quick) under C09's deterministic scheduler; oracle: nobody raises or hangs, the batch returns both values, a later batch returns them again."
 )
 ASSUMPTIONS = [
     "local runner (the only runner in the repository that executes)",
@@ -26,7 +27,7 @@ ASSUMPTIONS = [
 ]
 MANIFEST = {
     "level": "exploration",
-    "technique": "property-based testing with Hypothesis: differential between batch evaluation and element-wise evaluation on a twin store, plus execution-trace and final-store comparison",
+    "technique": "property-based testing with Hypothesis: differential between batch evaluation and element-wise evaluation on a twin store, plus execution-trace and final-store comparison; plus exhaustive one-preemption schedules of batch-versus-forget under a deterministic scheduler",
     "text": "Every generated batch is evaluated both as a batch and element by element on separate stores; slot values, raised exceptions, execution counts and final store contents are compared.",
     "note": "Trusts the twin (element-wise) evaluation as reference and the side-channel execution counter.",
 }
